@@ -236,7 +236,7 @@ func (n *Node) Spendable(exclude map[cipher.SHA256]bool) (map[cipher.Address]coi
 				continue
 			}
 			h, err := ux.CoinHours(head.Time())
-			if err != nil || h == 0 {
+			if err != nil || h == 0 || h > 1<<62 { // unspendable now, or hours so large that sums overflow
 				continue
 			}
 			out[a] = append(out[a], ux)
